@@ -75,6 +75,10 @@ def dhas(d, k):
     return k in d
 
 
+def seq_prefix(a, b):
+    return list(b[:len(a)]) == list(a)
+
+
 def dwf(d):
     return True
 
@@ -86,7 +90,7 @@ def ddisj(a, b):
 def base_ns(module_globals):
     ns = dict(module_globals)
     ns.update(_eq=lambda a, b: norm(a) == norm(b), implies=lambda a, b: (not a) or b, forall_items=_forall_items)
-    for k, v in dict(dapp=dapp, dhas=dhas, dhead=dhead, dtail=dtail, dcons=dcons, dput=dput, dwf=dwf, ddisj=ddisj, odict=OrderedDict).items():
+    for k, v in dict(seq_prefix=seq_prefix, dapp=dapp, dhas=dhas, dhead=dhead, dtail=dtail, dcons=dcons, dput=dput, dwf=dwf, ddisj=ddisj, odict=OrderedDict).items():
         ns.setdefault(k, v)
     return ns
 
